@@ -277,7 +277,9 @@ class UnitRegistry:
         Return a list of base unit names that this registry knows about that
         are of equivalent dimensions to *unit_object*.
         """
-        equiv = [k for k, v in self.lut.items() if v[1] is unit_object.dimensions]
+        dims = unit_object.dimensions
+        # equal dimensions are not always the identical sympy object
+        equiv = [k for k, v in self.lut.items() if v[1] is dims or v[1] == dims]
         equiv = sorted(set(equiv))
         return equiv
 
